@@ -117,9 +117,12 @@ Definition check_svc_case (c : svc_case) : bool :=
    C12 (convergence to the service's configuration): the POLLED part of what the handler acts on after every step, the hash,
    the number of pending update tasks.  C13 (handles): the service's registrations after every step. *)
 Definition polled_part (c : cfg) : cfg := filter (fun n => (n <? 100)%nat) c.
+(* the statement speaks of the SET of tracepoints acted on: compared as multisets *)
+Definition mset_eqb (a b : list nat) : bool :=
+  Nat.eqb (length a) (length b) && forallb (fun n => Nat.eqb (count_occ Nat.eq_dec a n) (count_occ Nat.eq_dec b n)) a.
 Definition check_svc_case_polled (c : svc_case) : bool :=
   let '(t, s) := trace svc0 (sv_ops c) in
-  list_eqb (list_eqb Nat.eqb) (map polled_part t) (map polled_part (sv_obs_installed c))
+  list_eqb mset_eqb (map polled_part t) (map polled_part (sv_obs_installed c))
   && option_eqb Nat.eqb (hash s) (sv_obs_hash c) && Nat.eqb (length (pending s)) (sv_obs_pending c).
 Definition check_svc_case_reg (c : svc_case) : bool :=
   list_eqb (list_eqb Nat.eqb) (ctrace svc0 (sv_ops c)) (sv_obs_customs c).
